@@ -622,6 +622,74 @@ impl Space for Transfer {
     }
 }
 
+/// Two cells given the SAME style (one shared entry in every table of the saved file); after a reload one of them is
+/// edited in place with one more variation. Differential oracle: a twin workbook that was given the final styles directly.
+struct EditAfterLoad {
+    s1: Vec<Spec>,
+    vars: Vec<(usize, usize)>,
+}
+impl EditAfterLoad {
+    fn decode(&self, i: u64) -> (usize, usize) {
+        ((i / self.vars.len() as u64) as usize, (i % self.vars.len() as u64) as usize)
+    }
+}
+impl Space for EditAfterLoad {
+    fn len(&self) -> u64 {
+        (self.s1.len() * self.vars.len()) as u64
+    }
+    fn describe(&self, i: u64) -> Value {
+        let (a, b) = self.decode(i);
+        json!({"kind":"edit-after-load","shared_style": spec_json(&self.s1[a]), "edit": format!("{}#{}", ATTRS[self.vars[b].0].0, self.vars[b].1), "history": "B1 and B2 get the shared style; save+reload; get_style_mut(B1) gets the edit; save+reload"})
+    }
+    fn tags(&self, i: u64) -> Vec<String> {
+        let (a, b) = self.decode(i);
+        let mut t = spec_tags(&self.s1[a]);
+        t.push(format!("edit:{}", ATTRS[self.vars[b].0].0));
+        t.push("edit-after-load".into());
+        t
+    }
+    fn run(&self, i: u64, sink: &mut Sink) {
+        let (a, b) = self.decode(i);
+        let tags = self.tags(i);
+        let tg: Vec<&str> = tags.iter().map(|s| s.as_str()).collect();
+        let case = self.describe(i);
+        sink.evaluations += 1;
+        let shared = self.s1[a].clone();
+        let (va, vk) = self.vars[b];
+        let mut edited = shared.clone();
+        edited.push((va, vk));
+        let light = i % 2 == 1;
+        let run = || -> Result<[Value; 4], String> {
+            let (_, mut h) = roundtrip(&build_style_book(&[shared.clone(), shared.clone()]), light)?;
+            apply_var(h.get_sheet_mut(&0).unwrap().get_style_mut("B1"), va, vk);
+            let (_, h2) = roundtrip(&h, light)?;
+            let (_, t2) = roundtrip(&build_style_book(&[edited.clone(), shared.clone()]), light)?;
+            let dh = calibrate(h2.get_sheet(&0).unwrap());
+            let dt = calibrate(t2.get_sheet(&0).unwrap());
+            Ok([
+                effective(&style_p(h2.get_sheet(&0).unwrap().get_style("B1")), &dh),
+                effective(&style_p(h2.get_sheet(&0).unwrap().get_style("B2")), &dh),
+                effective(&style_p(t2.get_sheet(&0).unwrap().get_style("B1")), &dt),
+                effective(&style_p(t2.get_sheet(&0).unwrap().get_style("B2")), &dt),
+            ])
+        };
+        match run() {
+            Err(e) => sink.violations.push(Violation::new("roundtrip-succeeds", &format!("failed:{}", panic_class(&e)), &tg, case, e)),
+            Ok([hx, hy, tx, ty]) => {
+                sink.obs(&format!("{}{}", hx, hy));
+                if hx != tx {
+                    let d = first_diff(&tx, &hx).map(|(p, l, r)| format!("{}: twin {} history {}", p, l, r)).unwrap_or_default();
+                    sink.violations.push(Violation::new("style-preserved", &format!("edited-cell-differs-from-twin:{}", component_symptom(&tx, &hx)), &tg, case.clone(), d));
+                }
+                if hy != ty {
+                    let d = first_diff(&ty, &hy).map(|(p, l, r)| format!("{}: twin {} history {}", p, l, r)).unwrap_or_default();
+                    sink.violations.push(Violation::new("styles-stay-distinct", &format!("sibling-changed-by-edit:{}", component_symptom(&ty, &hy)), &tg, case, d));
+                }
+            }
+        }
+    }
+}
+
 trait AsRefStyle {
     fn as_ref_style(&self) -> &Style;
 }
@@ -650,6 +718,11 @@ pub fn space(tier: Tier, id: &str) -> Option<Box<dyn Space>> {
         }
         "dims" => Some(Box::new(Dims)),
         "transfer" => Some(Box::new(Transfer { s1: sigma1() })),
+        "edit-after-load" => {
+            let vars: Vec<(usize, usize)> = sigma1().into_iter().filter(|s| s.len() == 1).map(|s| s[0]).collect();
+            let s1 = if tier == Tier::Thorough { sigma1() } else { sigma1().into_iter().step_by(3).collect() };
+            Some(Box::new(EditAfterLoad { s1, vars }))
+        }
         _ => None,
     }
 }
@@ -665,7 +738,7 @@ fn replay(tier: Tier, case: &Value) -> Vec<Violation> {
 }
 
 fn run(ctx: &Ctx) -> i32 {
-    let ids = ["pairs", "all-at-once", "dims", "transfer"];
+    let ids = ["pairs", "all-at-once", "dims", "transfer", "edit-after-load"];
     let spaces = ids.iter().map(|id| (*id, space(ctx.tier, id).unwrap())).collect();
     run_e1(
         ctx,
@@ -673,7 +746,7 @@ fn run(ctx: &Ctx) -> i32 {
             spaces,
             cfg: PoolCfg { chunk: 16, case_timeout: std::time::Duration::from_secs(300), ..Default::default() },
             level: "exploration",
-            rule: "style alphabet = base + every single-attribute variation (sigma1) + every pair of variations (sigma2) + a separator-collision family; (pairs) every ordered pair of sigma1 in a two-cell workbook, alternating writers; (all-at-once) whole sets in one workbook in forward and reverse order, which covers every ordered (earlier, later) pair for interning merges; (dims) every assignment of 4 states to columns 1..5 and rows 1..3; (transfer) every sigma1 style read back from one workbook and given to a cell of another reloaded workbook whose tables use the same ids for other components. Oracle: field-by-field effective style projection given == reloaded, where a never-set component equals the component shown by control cells after reload; style tables of generation 2 == generation 3 (read by the independent Python decoder). distinct_nontrivial = distinct reloaded effective projections".into(),
+            rule: "style alphabet = base + every single-attribute variation (sigma1) + every pair of variations (sigma2) + a separator-collision family; (pairs) every ordered pair of sigma1 in a two-cell workbook, alternating writers; (all-at-once) whole sets in one workbook in forward and reverse order, which covers every ordered (earlier, later) pair for interning merges; (dims) every assignment of 4 states to columns 1..5 and rows 1..3; (transfer) every sigma1 style read back from one workbook and given to a cell of another reloaded workbook whose tables use the same ids for other components; (edit-after-load) two cells sharing one sigma1 style (quick: every third), reloaded, one of them edited in place with every single variation, compared with a twin workbook that was given the final styles directly (the sibling must not change). Oracle: field-by-field effective style projection given == reloaded, where a never-set component equals the component shown by control cells after reload; style tables of generation 2 == generation 3 (read by the independent Python decoder). distinct_nontrivial = distinct reloaded effective projections".into(),
             alphabets: json!({"attributes": ATTRS.iter().map(|a| format!("{}x{}", a.0, a.1)).collect::<Vec<_>>(), "sigma1": sigma1().len(), "sigma2": sigma2().len(), "collision_family": collision_family().len()}),
             bounds: json!({"all-at-once": if ctx.tier == Tier::Thorough {"sigma1 + sigma2 + collision family in one workbook"} else {"sigma1; collision family; sigma2 restricted to the seven font attributes"}}),
             exhaustive: true,
